@@ -159,13 +159,10 @@ impl<'a> SessionData<'a> {
                     QoS::ExactlyOnce => {
                         let packet_id = info.packet_id.ok_or(ProtocolError::MalformedPacket)?;
                         let duplicate = self.pending_server_packet_ids.contains(&packet_id);
-                        let reason = if !duplicate {
-                            self.pending_server_packet_ids
-                                .push(packet_id)
-                                .map(|_| ReasonCode::Success)
-                                .unwrap_or(ReasonCode::ReceiveMaxExceeded)
-                        } else {
+                        let reason = if duplicate || !self.pending_server_packet_ids.is_full() {
                             ReasonCode::Success
+                        } else {
+                            ReasonCode::ReceiveMaxExceeded
                         };
                         trace!(
                             "Queueing PUBREC for inbound QoS2 PUBLISH packet_id={=u16} duplicate={=bool} {}",
@@ -174,6 +171,13 @@ impl<'a> SessionData<'a> {
                         let action = ControlAction::PubRec { packet_id, reason };
                         check_control_packet_size(runtime.maximum_packet_size, action)?;
                         self.outbound.queue_control(action)?;
+                        if !duplicate && reason.success() {
+                            // Only now that its PUBREC is owed is the message taken: had the
+                            // identifier been recorded before a failure above, the broker's
+                            // retransmission would be suppressed as a duplicate of a message
+                            // that was never handed to the application.
+                            let _ = self.pending_server_packet_ids.push(packet_id);
+                        }
                         if duplicate || !reason.success() {
                             debug!(
                                 "Ignoring inbound QoS2 PUBLISH after PUBREC packet_id={=u16} duplicate={=bool} reason={}",
